@@ -73,7 +73,7 @@ PROPS = {
         design_ref='DESIGN.md section 5, C01',
         not_covered=[
             'memory safety of the unsafe blocks below the transport seam (get_message_body::set_len, Reader::read_obj, FuseDevWriter raw Vecs, virtio copy_nonoverlapping) and descriptor-chain construction',
-            '"a reply IS sent" on every success path ([C01.answer]): handlers consume their context by value, so only "at most one, and exactly the specified one" is provable; helpers reply_ok/do_reply_error are proved to emit exactly one message when they return Ok',
+            '"every well-formed request due an answer gets exactly one" is stated on results, because handlers consume their context by value: [C01.<op>.replied] (Ok(n) only with n >= 16, and the reply helpers return Ok(n) only after exactly one complete message of n bytes was emitted) and [C01.<op>.answered] (a complete request fails only with EncodeMessage, i.e. writing its reply failed); outside these clauses: DESTROY (handler returns nothing), IOCTL (its Reader::read model may fail for any reason), requests with a missing NUL / short body (the "explicit EINVAL reply then Err" paths are only held to at-most-one and to the reply bytes), READ / READDIR[PLUS] on a reply buffer smaller than a header',
             'that the concrete FuseDevWriter / VirtioFsWriter refine the abstract Writer (assume-guarantee seam, DESIGN 3.4d)',
         ],
         trusted=['T3 prelude models (ByteValued as byte function with decode(encode(x)) == x, io::Error, slices/CStr, bitflags, ArcSwap)',
